@@ -40,7 +40,7 @@ CHECKS = {
             "On the component's own (virtual) clock every export is non-empty and within send_batch_max_size, every item is exported by accepted+timeout (or at the accept instant without timer), and at every quiescent instant each shard buffers fewer than send_batch_size items.",
             BP_NOTE + " Quiescence clause evaluated with max_concurrency=0; with max_concurrency=k>0 the deadline clause exempts exactly the items in whose window k exports were in flight at some instant (the property's proviso, decided from export begin/end events); no cancellations in the timing layers.", "§6 C09"),
     "C10": ("bp", "exploration", "runtime monitor: per-export tenant isolation check + porcupine linearizability check of the admission history against a capacity-bounded set",
-            "Every exported batch is checked for a single metadata combination and matching client metadata; the recorded Consume(combo)->admitted|refused history of every scenario (bubble with a delay between map miss and lock, and real-time stress) is checked with porcupine against a set bounded by metadata_cardinality_limit.",
+            "Every exported batch is checked for a single metadata combination and matching client metadata; the recorded Consume(combo)->admitted|refused history of every scenario (bubble with a delay between map miss and lock, a delay-sweep that holds back every single hook hit of a base run in turn, and real-time stress) is checked with porcupine against a set bounded by metadata_cardinality_limit.",
             BP_NOTE + " Porcupine timeout (2 min) => inconclusive.", "§6 C10"),
     "C11": ("bp", "exploration", "race detector + in-flight gauge monitor + synctest deadlock/leak detection + goroutine stack scan after Shutdown",
             "In-flight exports per combination never exceed max_concurrency, Shutdown returns only after accepted items were exported and exports returned, no goroutine survives (bubble end / stack scan), no race report with a repository frame, no bubble deadlock; cancel-window and delay-sweep layers place cancellations and single delays at every instant / hook hit of a base run.",
